@@ -4,6 +4,8 @@ import Exetera.Lemmas.CatalogueViews
 import Exetera.Lemmas.CatalogueReopen
 import Exetera.Lemmas.CatalogueAtomic
 import Exetera.Lemmas.CatalogueHeap
+import Exetera.Lemmas.CatalogueRefineStep
+import Exetera.Lemmas.CatalogueSpec
 /-!
   C15 — the catalogue stays consistent under any history of structural edits.
   All theorems are about `Exetera.Catalogue.step .repaired` / `run .repaired`, the functions the driver executes
@@ -174,6 +176,73 @@ theorem objects_never_change_run (v : Variant) (ops : List Op) (s : State) {oid 
 
 example : exState.objs[1]? = some ⟨.indexed, 2⟩ ∧
     (run .repaired exState [.rename 0 "x" exDict, .moveFrame 0 "x" 1 "y", .reopen 1]).objs[1]? = some ⟨.indexed, 2⟩ := by decide
+
+/-! ### ONE refinement for EVERY call: the code is a run of the abstract catalogue `dataset ↦ frame ↦ column ↦ (type, data)`
+
+  `specStep` (Spec/Catalogue.lean) says in terms of names only what each call means: create/copy put one column, del/drop/
+  delete_field remove one, rename re-keys one frame, `dataframe.move` is a rename inside a frame and copy + drop across frames,
+  create/copy/`ds[n] = foreign` put a whole frame, `ds[n] = own` renames a frame, del/drop/delete remove one, `dataset.move` is
+  copy + drop, `require_dataframe` creates when missing, reopen changes nothing. A call that raises changes nothing.
+  The only thing taken from the model is the call log: which call, where the field object it was handed sat at that moment
+  (`srcOf`: dataset, frame name, column name of the group it wraps), and whether it returned. -/
+
+/-- Every call of the repaired code, on every consistent state, returning or raising, changes the file catalogue exactly as
+    the abstract catalogue prescribes. Proviso (as for `calls_all_or_nothing`, here for every call that takes a field): the
+    field object handed in is not the left-over of a deleted column (`Op.refsLinked`). -/
+theorem step_refines {s : State} (hI : Inv s) (op : Op) (hz : op.refsLinked s) :
+    absH5 (step .repaired s op).state = specCall (absH5 s) (callOf .repaired s op) :=
+  Catalogue.step_refines hI op hz
+
+/-- … spelled out for a call that returns … -/
+theorem returning_call_refines {s s' : State} (hI : Inv s) (op : Op) (hz : op.refsLinked s) {u : Unit}
+    (hok : step .repaired s op = .ok u s') : absH5 s' = specStep (srcOf s op) (absH5 s) op :=
+  step_refines_ok hI op hz hok
+
+/-- … and for one that raises. -/
+theorem raising_call_refines {s s' : State} (hI : Inv s) (op : Op) (hz : op.refsLinked s) {e : Err}
+    (herr : step .repaired s op = .err e s') : absH5 s' = absH5 s := by
+  rw [calls_all_or_nothing hI op (refsLinked_srcLinked hz) e s' herr]
+
+theorem absH5_init : absH5 State.init = Cat.empty := rfl
+
+/-- Over all histories: the file catalogue after any history of calls is the abstract catalogue run over the call log. -/
+theorem history_refines (ops : List Op) (hz : HistLinked .repaired State.init ops) :
+    absH5 (run .repaired State.init ops) = specRun Cat.empty (callLog .repaired State.init ops) := by
+  rw [← absH5_init]; exact run_refines ops inv_init hz
+
+/-- … and so is what the Python objects report (`ds.keys()`, `df.keys()`, the field objects and their data) — "the names
+    reported are exactly the groups present" and "a fresh reopen shows the same" for the one abstract catalogue. -/
+theorem reported_catalogue_refines (ops : List Op) (hz : HistLinked .repaired State.init ops) :
+    absPy (run .repaired State.init ops) = specRun Cat.empty (callLog .repaired State.init ops) := by
+  rw [reopen_same ops]; exact history_refines ops hz
+
+/-- "Untouched fields keep their data", for every call: whatever a returning call does not name (`Op.touches`: its destination
+    column, its source when it moves, the renamed columns and their targets, the frames a frame-level call names) has the type
+    and data it had. -/
+theorem untouched_fields_keep_data {s s' : State} (hI : Inv s) (op : Op) (hz : op.refsLinked s) {u : Unit}
+    (hok : step .repaired s op = .ok u s') (p : Src) (hp : ¬ op.touches (srcOf s op) p) : (absH5 s').col p = (absH5 s).col p := by
+  rw [returning_call_refines hI op hz hok]; exact specStep_untouched _ _ _ _ hp
+
+/-- two datasets; frame x{a,b} and y{a_} in the first, x in the second; then: a frame copied into the other dataset, a frame
+    assigned across datasets, a column moved (by held handle) into a frame of the other dataset where nothing is overwritten,
+    a frame moved across datasets, a rename, a refused call, a reopen -/
+def exHist : List Op :=
+  exOps ++ [.copyFrame 0 "x" 1 "z", .setFrame 1 "w" 0 "y", .moveField (.byHandle 1) 1 "x" "b", .moveFrame 0 "y" 1 "v",
+            .rename 0 "x" [("a", "b")], .copyFrame 0 "x" 1 "z", .reopen 1, .setFrame 1 "u" 1 "z"]
+
+example : HistLinked .repaired State.init exHist := histLinked_of_check (by decide)
+example : (callLog .repaired State.init exHist).map (·.returned) =
+    [true, true, true, true, true, true, true, true, true, true, true, false, true, true] := by decide
+example : ((callLog .repaired State.init exHist)[8]?).map (·.src) = some (some ⟨0, "x", "b"⟩) := by decide
+/-- the cross-dataset copies and moves arrived with their data, the sources of the moves are gone, nothing was overwritten -/
+example : let A := absH5 (run .repaired State.init exHist)
+    A.col ⟨1, "u", "b"⟩ = some ⟨.indexed, 2⟩ ∧ A 1 "z" = none ∧ A.col ⟨1, "w", "a_"⟩ = some ⟨.fixed, 3⟩ ∧
+    A.col ⟨1, "x", "b"⟩ = some ⟨.indexed, 2⟩ ∧ A.col ⟨0, "x", "a"⟩ = none ∧ A.col ⟨0, "x", "b"⟩ = some ⟨.numeric, 1⟩ ∧
+    A.col ⟨1, "v", "a_"⟩ = some ⟨.fixed, 3⟩ ∧ (A 0 "y").isNone = true := by decide
+example : (Op.moveField (.byHandle 1) 1 "x" "b").refsLinked (run .repaired State.init (exOps ++ [.copyFrame 0 "x" 1 "z", .setFrame 1 "w" 0 "y"])) :=
+  refsLinked_of_check (by decide)
+example : ¬ (Op.moveField (.byHandle 1) 1 "x" "b").touches (some ⟨0, "x", "b"⟩) ⟨0, "x", "a"⟩ := by
+  simp [Op.touches]
 
 /-! ### move -/
 
